@@ -15,7 +15,7 @@ sed -i "s|/repo/|$WT/|g" $HS/Cargo.toml
 printf '[net]\noffline = true\n[build]\ntarget-dir = "%s"\n' $TG > $HS/.cargo/config.toml
 ( cd $HS && cargo build --release --offline >/tmp/$P-build.log 2>&1 ) || { echo "MACHINERY: harness build failed"; tail -5 /tmp/$P-build.log; exit 2; }
 for id in "$@"; do
-  if [ "$id" = "C17" ] || [ "$id" = "C20" ] || [ "$id" = "C15" ] || [ "$id" = "C04" ] || [ "$id" = "C16" ]; then ( cd $WT && CARGO_TARGET_DIR=$TG/repo-bin cargo build --release --offline -p taskchampion-sync-server --bin taskchampion-sync-server >/tmp/$P-build.log 2>&1 ) || echo "server binary build failed"; fi
+  if [ "$id" = "C17" ] || [ "$id" = "C20" ] || [ "$id" = "C15" ] || [ "$id" = "C04" ] || [ "$id" = "C16" ] || [ "$id" = "C14" ]; then ( cd $WT && CARGO_TARGET_DIR=$TG/repo-bin cargo build --release --offline -p taskchampion-sync-server --bin taskchampion-sync-server >/tmp/$P-build.log 2>&1 ) || echo "server binary build failed"; fi
   out=$(TCSS_VERIF_DIR=/verif TCSS_OUT_DIR=/tmp/$P-out TCSS_SERVER_BIN=$TG/repo-bin/release/taskchampion-sync-server $TG/release/tcss-verif check $id ${TIER:-quick} 2>&1); rc=$?
   case $rc in
     0) echo "$id: MISSED";;
